@@ -286,7 +286,11 @@ def compound_method(c, t, spec_of, props, family_name, cxx, req=None, per_lane_g
         if per_lane_guard:
             e = '!(%s) || (%s)' % (per_lane_guard(i), e)
         ens.append(('%s lane %d' % (family_name, i), e))
-    ens.append(('%s returns *this' % family_name, '%s == this' % RV))
+    if c.fn.get('ret_ref'):
+        ens.append(('%s returns *this' % family_name, '%s == this' % RV))
+    elif c.RT is not None and c.RT.ct == t.ct:
+        # a few compound operators (vec8x32i / vec16x32i <<=, >>=) return Vector by value: the copy equals *this
+        ens += [('%s returns a copy of *this lane %d' % (family_name, i), '%s == %s' % (t.lane(RV, i), t.lane('(*this)', i))) for i in range(t.W)]
     return Contract(family_name, props, requires=req or [], ensures=ens, assigns=['*this'],
                     cxx=cxx, heavy=heavy, flags=flags)
 
